@@ -265,26 +265,38 @@ class Rewriter(ast.NodeTransformer):
 
         def snap(name, copying=False):
             # targets of augmented assignments may be mutated IN PLACE (list += , bitarray +=): the pre-state snapshot must be a copy
+            def how(s):
+                if copying and s in aug:
+                    return "peek_copy"
+                return "peek_item" if isinstance(uniq[s], ast.Subscript) else "peek"
             return ast.Assign(targets=[_name(name, True)],
-                              value=ast.Tuple(elts=[_rt("peek_copy" if (copying and s in aug) else "peek", _lam(load(s))) for s in srcs], ctx=ast.Load()))
+                              value=ast.Tuple(elts=[_rt(how(s), _lam(load(s))) for s in srcs], ctx=ast.Load()))
 
         def item(name, i):
             return ast.Subscript(value=_name(name), slice=_const(i), ctx=ast.Load())
 
         def restore(name):
             return [ast.If(test=_rt("bound", item(name, i)),
-                           body=[ast.Assign(targets=[store(s)], value=item(name, i))], orelse=[])
+                           body=[ast.Assign(targets=[store(s)], value=_rt("unsnap", item(name, i)))], orelse=[])
                     for i, s in enumerate(srcs)]
+
+        def snap_after(name):
+            def one(i, s):
+                if s in aug:
+                    return _rt("peek_after", _lam(load(s)), item(old, i))
+                return _rt("peek_item" if isinstance(uniq[s], ast.Subscript) else "peek", _lam(load(s)))
+            return ast.Assign(targets=[_name(name, True)], value=ast.Tuple(elts=[one(i, s) for i, s in enumerate(srcs)], ctx=ast.Load()))
 
         c, old, a, b, tok = self.tmp(), self.tmp(), self.tmp(), self.tmp(), self.tmp()
         site = "%s:%d" % ("?", node.lineno)
         body_then = node.body or [ast.Pass()]
         body_else = node.orelse or [ast.Pass()]
         import copy as _copy
-        pred_ok = [snap(old, True),
-                   ast.Expr(_rt("enter", _name(c), _const(True)))] + _copy.deepcopy(body_then) + [ast.Expr(_rt("leave")), snap(a)] + restore(old) + \
-                  [ast.Expr(_rt("enter", _name(c), _const(False)))] + _copy.deepcopy(body_else) + [ast.Expr(_rt("leave")), snap(b)] + \
-                  [ast.Assign(targets=[store(s)], value=_rt("merge", _name(c), item(a, i), item(b, i))) for i, s in enumerate(srcs)]
+        pred_ok = [ast.Assign(targets=[_name(tok, True)], value=_rt("serial")), snap(old, True),
+                   ast.Expr(_rt("enter", _name(c), _const(True)))] + _copy.deepcopy(body_then) + [ast.Expr(_rt("leave")), snap_after(a)] + restore(old) + \
+                  [ast.Expr(_rt("enter", _name(c), _const(False)))] + _copy.deepcopy(body_else) + [ast.Expr(_rt("leave")), snap_after(b)] + \
+                  [ast.Assign(targets=[store(s)], value=_rt("merge_target", _name(c), item(a, i), item(b, i), item(old, i), _name(tok),
+                                                            _const(isinstance(uniq[s], ast.Subscript)), _const(s in aug))) for i, s in enumerate(srcs)]
         # try predicated; on MergeFail restore and fork
         pred = [ast.Try(body=pred_ok,
                         handlers=[ast.ExceptHandler(type=ast.Attribute(value=_name(RT), attr="SpecFail", ctx=ast.Load()), name=None,
